@@ -94,6 +94,7 @@ func genCaseCachedVotes(c *Ctx) {
 		}
 		c2 := nc.defBlock(main[0], 1, 1, nil)
 		c3 := nc.defBlock(c2, 0, 0, nil)
+		c4 := nc.defBlock(c3, 0, 0, nil)
 		for _, name := range main {
 			n.processBlock(nc.nm.blocks[name])
 			nc.delivered[name] = true
@@ -134,6 +135,24 @@ func genCaseCachedVotes(c *Ctx) {
 			c.Count("cached-vote-attempts")
 			if !forged && n.chain.VerifNodeCasper().BestChain() == nc.nm.blocks[c3].Hash() {
 				c.Count("cached-vote-replay-justified-the-target")
+			}
+			// the node must still process blocks after the replay moved the fork choice (whoever
+			// asks the block processor to follow it must also take its answer)
+			if c4 != "" {
+				done2 := make(chan struct{})
+				go func() {
+					n.chain.ProcessBlock(cloneBlock(nc.nm.blocks[c4]))
+					close(done2)
+				}()
+				select {
+				case <-done2:
+					if n.chain.BestBlockHeader().Hash() != n.chain.VerifNodeCasper().BestChain() {
+						c.Fail("C37:cached-vote-no-rollback:after-next-block", fmt.Sprintf("after the replay of the cached messages and one more block (%s) the best block is %s but the fork choice is %s", c4, nc.nm.name(n.chain.BestBlockHeader().Hash()), nc.nm.name(n.chain.VerifNodeCasper().BestChain())))
+					}
+				case <-time.After(30 * time.Second):
+					c.Fail("C37:call-does-not-return:after-cached-vote-replay", fmt.Sprintf("after the cached verification messages for %s were replayed (fork choice moved to its branch), ProcessBlock(%s) did not return within 30 s", c2, c4))
+					concWedged = true
+				}
 			}
 		}
 		nc.emit("conc cached-votes", "ok")
